@@ -41,7 +41,9 @@ add("C07", "fault_enumeration",
     "raises KeyboardInterrupt at the event so that the stack unwinds and finally blocks, destructors and exit handlers run under "
     "the same scheduler (when the event belongs to a pool worker the exception surfaces in the owner after the pool has drained "
     "its queue, as the executor does); after each kill `isoquant.py --resume` runs and "
-    "all outputs are compared with the uninterrupted control run. Real processes, real buffers, real destructors.",
+    "all outputs are compared with the uninterrupted control run. A restart-mode block does the same for a run started from saved "
+    "assignments (--read_assignments) after an earlier restart from the same saves was killed. Real processes, real buffers, real "
+    "destructors.",
     "A kill loses user-space buffers only (no power-loss semantics); C-level writes of pysam/pyfaidx/sqlite are single events; "
     "SIGINT is delivered at tracked events only (not between arbitrary bytecodes) and to the top-level process only (a terminal's "
     "Ctrl+C to the whole process group is not modelled); "
@@ -134,7 +136,9 @@ add("C08", "exploration",
     "isoform/gene lists, penalties, exact duplicates) are fed to the real MultimapResolver in EVERY permutation (<= 720) and "
     "compared with a reference model no stricter than the statement; the retained set must be permutation-invariant and "
     "identical after the serialize/deserialize path. Pipeline: paralog workloads presented in different chromosome-length "
-    "rankings, BAM file orders and tie orders x memory mode x threads x schedules must give equal outputs as multisets; the "
+    "rankings, BAM file orders and tie orders x memory mode x threads x schedules must give equal outputs as multisets (GTF lines "
+    "without the exon_id attribute, whose numbering follows the printing order); variants: the output folder holds the verdict files "
+    "of another run, the run is killed during collection and resumed, two experiments with the same read ids in one process; the "
     "counts oracle bounds each read's total contribution by 1.",
     "Trusted: the 40-line reference model; machine records are built like BasicReadAssignment.deserialize builds them; "
     "permutations are exhaustive only per multiset (<= 6 records), multisets are sampled.",
